@@ -221,8 +221,12 @@ void h_mb_remove(void) {
     V_CHECK("C05.dtor-exactly-once-on-removed-value", g_dlog_n == ((existed && vin_has_dtor) ? 1 : 0) && (!(existed && vin_has_dtor) || g_dlog[0] == V_VAL(vin_x)));
     V_CHECK("C05.key-released-with-its-entry", g_free_calls == ((existed && (m->flags & M_MAP_KEY_AUTOFREE)) ? 1 : 0));
     check_view(m, live, val, "", "");
+#ifndef V_OCC
     V_COVER("remove-head-of-cluster", existed && g_len0 == 3); V_COVER("remove-absent", !existed && g_len0 == 2);
     V_COVER("remove-wrapped", existed && m->table[0].key != NULL && g_live0[slot_id(&m->table[0])] && ((g_hash[slot_id(&m->table[0])] & (V_T - 1)) == V_T - 1));
+#else
+    V_COVER("remove-present", existed); V_COVER("remove-absent-key", !existed);
+#endif
     V_CANARY();
 }
 
